@@ -189,6 +189,19 @@ def attribute(clause, sig, history):
     return BASE_CLAUSE.get(clause, "OTHER")
 
 
+def attributed_to(prop, clause, sig, history):
+    """Does this violation count for `prop`? One primary property per violation,
+    plus: a memory error inside Weak code (upgrade/drop/counts on an allocation that
+    should have been kept for its Weak handles) is also C05's "keeps the bare
+    allocation valid until the last Weak is dropped"."""
+    primary = attribute(clause, sig, history)
+    if primary == prop:
+        return True
+    if prop == "C05" and clause == "CRASH" and primary == "C02" and ("Weak" in sig):
+        return True
+    return False
+
+
 def load_known():
     if not os.path.exists(KNOWN):
         return {"findings": [], "fixed": []}
@@ -245,6 +258,18 @@ def write_replay(prop, clause, sig, spec, variant, flags, wit):
     }
     with open(path, "w") as f:
         json.dump(doc, f, indent=1)
+    try:
+        import gentest
+        name = os.path.basename(path)[:-5].replace("-", "_").lower()
+        src = gentest.gen_test(doc, name)
+        if src:
+            with open(path[:-5] + ".rs", "w") as f:
+                f.write(src)
+            doc["plain_test"] = path[:-5] + ".rs"
+            with open(path, "w") as f:
+                json.dump(doc, f, indent=1)
+    except Exception as e:  # the replay file is what counts
+        print("note: no plain test generated:", e)
     return path
 
 
@@ -301,10 +326,11 @@ def run_property(prop, tier, seed, build):
                 by_prop.setdefault(p, []).append(wit)
             # the group count is attributed to the property of its first witness
             first_prop = attribute(g["clause"], g["sig"], g["witnesses"][0]["history"])
+            mine = [w for w in g["witnesses"] if attributed_to(prop, g["clause"], g["sig"], w["history"])]
             if first_prop == "MACHINERY":
                 machinery.append(f"{g['sig']}: {g['witnesses'][0]['detail']} (history {g['witnesses'][0]['history']})")
-            elif first_prop == prop:
-                violations.append((g["clause"], g["sig"], g["count"], by_prop.get(prop, []), spec, variant, flags))
+            elif mine:
+                violations.append((g["clause"], g["sig"], g["count"], mine, spec, variant, flags))
             else:
                 others[first_prop] = others.get(first_prop, 0) + g["count"]
     status = 0
